@@ -20,7 +20,7 @@ Init == i \in 1..Len(Cases) /\ done = FALSE
 
 ParOf(x) == IF x[1] = "q" THEN Q(Frac(x[2], x[3])) ELSE IF x[1] = "pinf" THEN PInf ELSE NInf
 ParamsOf(c) == Params(ParOf(c.par.a), ParOf(c.par.b), ParOf(c.par.g), ParOf(c.par.w))
-XOf(c) == [kind |-> c.xf.kind, nodes |-> {c.xf.nodes[j] : j \in 1..Len(c.xf.nodes)}, c |-> c.xf.c, pl |-> c.xf.pl]
+XOf(c) == [kind |-> c.xf.kind, nodes |-> {c.xf.nodes[j] : j \in 1..Len(c.xf.nodes)}, c |-> c.xf.c, pl |-> c.xf.pl, name |-> c.xf.name]
 
 NoDraws(T) == [k \in 1..T |-> 0]
 AllExact(par, T) == \A t \in 1..T : Exact(par, t)
